@@ -95,6 +95,11 @@ def end_to_end(name):
                 out.append("attribute-does-not-hold-the-value")
         except Exception as exc:  # noqa: BLE001
             out.append("attribute-not-readable:" + type(exc).__name__)
+        try:
+            if got[1][attr] != 1:
+                out.append("item-access-does-not-hold-the-value")
+        except Exception as exc:  # noqa: BLE001
+            out.append("item-access-fails:" + type(exc).__name__)
     try:
         text = serialize_python(cls)
     except Exception as exc:  # noqa: BLE001
@@ -178,6 +183,21 @@ POOL = sorted(set(keyword.kwlist) | set(dir(object)) | {"_dict", "__dict__", "__
                                                           "inline", "self", "None_", "class_", "blank", "", "__debug__",
                                                           "__annotations__", "__qualname__", "__name__", "__mro__",
                                                           "__bases__", "__builtins__", "__file__", "__spec__"})
+def library_names():
+    """Names the library itself uses on model classes and instances (whatever they are in the tree under test): a
+    property of that name must not get in their way."""
+    try:
+        probe = parse_element({"type": "object", "title": "Probe", "properties": {"p": {"type": "integer"}}})
+        inst = probe({"p": 1})
+        found = set(vars(inst)) | set(dir(inst)) | set(vars(probe)) | set(vars(type(inst).__mro__[1]))
+    except Exception:  # noqa: BLE001
+        found = set()
+    return sorted(n for n in found if isinstance(n, str) and n not in ("p",))
+
+
+POOL = sorted(set(POOL) | set(library_names()))
+
+
 def _fullwidth(word, i):
     j = i % len(word)
     c = word[j]
@@ -303,6 +323,8 @@ def shared_predicate(case, stats):
     except RecursionError:
         stats.inconclusive["recursion"] += 1
         return []
+    except Exception as exc:  # noqa: BLE001 - whatever else the parser raises for these names is the finding
+        return [fail("shared", ns, ["parse-raised:" + type(exc).__name__], detail=str(exc)[:200])]
     root = elements[0]
     out = []
     found = []
@@ -498,4 +520,12 @@ def run_shard(ctx, stats):
                  more=[u[1]["name"] for u in unknown[1:20]])
         return {"case": case, "failures": [f]}
     stats.extra["exhaustive_complete"] = 1
+    # every pooled name (keywords, reserved attributes, the names the library itself uses on classes and instances)
+    # goes through the whole pipeline once, deterministically: shard k takes every 16th
+    for name in POOL[ctx.shard::max(ctx.nshards, 1)]:
+        case = {"kind": "name", "name": name}
+        unknown = runner.triage(PID, case, predicate(case, stats), stats)
+        if unknown:
+            return {"case": case, "failures": unknown}
+    stats.extra["pooled_names_end_to_end"] = len(POOL)
     return runner.hyp_run(ctx, stats, gen_cases(), predicate, BUDGET[ctx.tier])
